@@ -3,7 +3,8 @@
 alphabet: g in {-1,0,1,1e-3}^n x scale decades x H family (zero, identity, diagonal, rank-1 PSD, dense PSD, indefinite,
           negative definite) x delta decades x per-coordinate bound pattern {far, at lower, at upper, 1e-10*delta from
           lower, within 0.3-0.4 delta} (all 5^n patterns) x current point {0, non-representable}
-bound   : n <= 3 (quick), n <= 4 (thorough)
+bound   : n <= 3 (quick), n <= 4 (thorough): the full Cartesian product; n = 6 (quick), n in {5, 6, 8} (thorough): every
+          assignment with at most two coordinates departing from a default coordinate (gradient +-1, far bounds)
 oracle  : exact feasibility of xopt+d, ||d|| <= delta(1+1e-8), q(d) <= 0, q(d) <= q(Cauchy point) with the Cauchy
           point computed independently, returned gradient == g + H d.
 """
@@ -71,6 +72,38 @@ def cases(tier, salts):
                                 for pat in itertools.product(range(len(PATTERNS)), repeat=n):
                                     out.append({"n": n, "g": list(g), "sc": sc, "H": fam, "delta": dl, "pat": list(pat),
                                                 "xo": xo, "salt": salt})
+    return out + wide_cases(tier, salts)
+
+
+def wide_cases(tier, salts):
+    """n = 5..8 (the property quantifies up to n = 8): deviation-bounded enumeration.  The default coordinate has gradient
+    letter +-1 (alternating) and far bounds; EVERY assignment in which at most two coordinates (all position pairs) depart
+    from the default, each to any (gradient letter, bound pattern) pair, is enumerated."""
+    out = []
+    ns = [6] if tier == "quick" else [5, 6, 8]
+    menu = [(gl, pi) for gl in G_LETTERS for pi in range(len(PATTERNS))]
+    for salt in salts:
+        if salt != salts[0] and tier == "quick":
+            continue
+        for n in ns:
+            if n == 8 and salt > 1:
+                continue
+            base_g = [(-1.0) ** i for i in range(n)]
+            combos = [()]
+            combos += [((i, a),) for i in range(n) for a in menu]
+            combos += [((i, a), (j, b)) for i in range(n) for j in range(i + 1, n) for a in menu for b in menu]
+            scales = [1.0] if tier == "quick" else [1e-3, 1.0]
+            deltas = [1e-2, 1e2] if tier == "quick" else [1e-6, 1.0, 1e2]
+            hf = ["zero", "dense", "indef", "negdef"] if tier == "quick" else ["zero", "diag", "rank1", "dense", "indef", "negdef"]
+            for combo in combos:
+                g = list(base_g)
+                pat = [0] * n
+                for (i, (gl, pi)) in combo:
+                    g[i], pat[i] = gl, pi
+                for sc in scales:
+                    for fam in hf:
+                        for dl in deltas:
+                            out.append({"n": n, "g": g, "sc": sc, "H": fam, "delta": dl, "pat": pat, "xo": 1, "salt": salt, "wide": True})
     return out
 
 
@@ -79,7 +112,7 @@ def build(case):
     g = np.array(case["g"]) * case["sc"]
     H = make_H(case["H"], n, case["salt"]) * (case["sc"] if case["H"] != "zero" else 1.0)
     delta = case["delta"]
-    xopt = np.zeros(n) if XOPTS[case["xo"]] is None else np.array(XOPTS[case["xo"]][:n]) * (1.0 + 0.01 * case["salt"])
+    xopt = np.zeros(n) if XOPTS[case["xo"]] is None else np.array((XOPTS[case["xo"]] * 2)[:n]) * (1.0 + 0.01 * case["salt"])
     sl = np.zeros(n)
     su = np.zeros(n)
     for i, p in enumerate(case["pat"]):
